@@ -565,9 +565,130 @@ func lifecycle() {
 	w.R.Scenarios["lifecycle_sequences"] = len(seqs)
 }
 
+// ---------- input modes across Suspend / Resume ----------
+
+// modes: every sequence up to length 4 (thorough 5) over EnableMouse (all / buttons only) /
+// DisableMouse / EnablePaste / DisablePaste / EnableFocus / Suspend / Resume on a fresh
+// screen; after every step at which the screen is running the callbacks are probed: keys are
+// delivered, mouse callbacks are honoured exactly for the enabled mouse modes, paste and focus
+// exactly when enabled. (While suspended nothing is judged: the statement is silent there.)
+func modes() {
+	if *hc.Shard != 1%*hc.NShards {
+		return
+	}
+	g := js.Global()
+	opsN := []string{"EnableMouse()", "EnableMouse(buttons)", "DisableMouse", "EnablePaste", "DisablePaste", "EnableFocus", "Suspend", "Resume"}
+	maxLen := 4
+	if hc.Thorough() {
+		maxLen = 5
+	}
+	var seqs [][]int
+	var rec func(cur []int)
+	rec = func(cur []int) {
+		if len(cur) > 0 {
+			seqs = append(seqs, append([]int(nil), cur...))
+		}
+		if len(cur) == maxLen {
+			return
+		}
+		for i := range opsN {
+			rec(append(cur, i))
+		}
+	}
+	rec(nil)
+	for _, sq := range seqs {
+		w.R.Evaluations++
+		w.AddDistinct(1)
+		s := newScreen(4, 2)
+		running, paste, focus := true, false, false
+		var mouse tcell.MouseFlags
+		var names []string
+		bad := false
+		for _, o := range sq {
+			names = append(names, opsN[o])
+			switch o {
+			case 0:
+				s.EnableMouse()
+				mouse = tcell.MouseButtonEvents | tcell.MouseDragEvents | tcell.MouseMotionEvents
+			case 1:
+				s.EnableMouse(tcell.MouseButtonEvents)
+				mouse = tcell.MouseButtonEvents
+			case 2:
+				s.DisableMouse()
+				mouse = 0
+			case 3:
+				s.EnablePaste()
+				paste = true
+			case 4:
+				s.DisablePaste()
+				paste = false
+			case 5:
+				s.EnableFocus()
+				focus = true
+			case 6:
+				_ = s.Suspend()
+				running = false
+			case 7:
+				_ = s.Resume()
+				running = true
+			}
+			if !tcell.VerifWasmLockFree(s) {
+				w.Violation("wasm-wedge:"+opsN[o], fmt.Sprintf("sequence %v: the call returned with the screen lock still held", names), nil)
+				bad = true
+				break
+			}
+			poll(s)
+			if !running {
+				continue
+			}
+			type probe struct {
+				name string
+				call func()
+				want []ri.Ev
+			}
+			var wantClick, wantMove, wantPaste, wantFocus []ri.Ev
+			if mouse&tcell.MouseButtonEvents != 0 {
+				wantClick = []ri.Ev{{Kind: "mouse", X: 1, Y: 1, Buttons: tcell.Button1}}
+			}
+			if mouse&tcell.MouseMotionEvents != 0 {
+				wantMove = []ri.Ev{{Kind: "mouse", X: 2, Y: 1, Buttons: tcell.ButtonNone}}
+			}
+			if paste {
+				wantPaste = []ri.Ev{{Kind: "paste", Flag: true}}
+			}
+			if focus {
+				wantFocus = []ri.Ev{{Kind: "focus", Flag: true}}
+			}
+			call := func(name string, args ...interface{}) {
+				if g.Get(name).Type() == js.TypeFunction { // a callback the screen never installed is simply absent
+					g.Call(name, args...)
+				}
+			}
+			for _, pr := range []probe{
+				{"onKeyEvent(k)", func() { call("onKeyEvent", "k", false, false, false, false) }, []ri.Ev{{Kind: "key", Key: tcell.KeyRune, Rune: 'k'}}},
+				{"onMouseClick(button 1)", func() { call("onMouseClick", 1, 1, 1, false, false, false) }, wantClick},
+				{"onMouseMove(no button)", func() { call("onMouseMove", 2, 1, 0, false, false, false) }, wantMove},
+				{"onPaste(true)", func() { call("onPaste", true) }, wantPaste},
+				{"onFocus(true)", func() { call("onFocus", true) }, wantFocus},
+			} {
+				pr.call()
+				if got := poll(s); !ri.EqEvs(got, pr.want) {
+					w.Violation("wasm-modes:"+pr.name, fmt.Sprintf("after %v (running, mouse flags %03b, paste %v, focus %v): %s delivered %v, want %v", names, mouse, paste, focus, pr.name, got, pr.want), map[string]interface{}{"sequence": names})
+					bad = true
+				}
+			}
+			if bad {
+				break
+			}
+		}
+		s.Fini()
+	}
+	w.R.Scenarios["mode_sequences"] = len(seqs)
+}
+
 func main() {
 	w = hc.Start("C19")
-	w.R.Rule = "the package is compiled for GOOS=js GOARCH=wasm from the current tree (the check's build step; a compile error is reported with the compiler output); inside the wasm program under Node, with recording stand-ins for tcell.js: BFS (depth 4, thorough 5) over draw histories (wide-rune/combining/control alphabet 4x1, five-style alphabet 2x2 incl. basic, 256-palette and RGB colours, attributes, underline style/colour) comparing the page grid rebuilt from drawCell calls with the shadow model after every Show/Sync and requiring drawn cells to be changed cells; every name of WebKeyNames and six printable keys x 16 modifier combinations, modifier-only keys, both mouse callbacks x 4 button codes x 8 modifier sets x 8 enabled-flag sets, paste and focus callbacks enabled and disabled; all 340 orders of Suspend/Resume/SetSize/Fini up to length 4, each on a fresh screen, a sequence that parks for ever being detected through the cooperative scheduler (no wall clock). distinct_nontrivial = input cases + lifecycle sequences + draw states"
+	w.R.Rule = "the package is compiled for GOOS=js GOARCH=wasm from the current tree (the check's build step; a compile error is reported with the compiler output); inside the wasm program under Node, with recording stand-ins for tcell.js: BFS (depth 4, thorough 5) over draw histories (wide-rune/combining/control alphabet 4x1, five-style alphabet 2x2 incl. basic, 256-palette and RGB colours, attributes, underline style/colour) comparing the page grid rebuilt from drawCell calls with the shadow model after every Show/Sync and requiring drawn cells to be changed cells; every name of WebKeyNames and six printable keys x 16 modifier combinations, modifier-only keys, both mouse callbacks x 4 button codes x 8 modifier sets x 8 enabled-flag sets, paste and focus callbacks enabled and disabled; all 340 orders of Suspend/Resume/SetSize/Fini up to length 4, each on a fresh screen, a call that returns with the screen lock held being detected by probing the lock (no wall clock); all sequences up to length 4 (5) over EnableMouse(all|buttons)/DisableMouse/EnablePaste/DisablePaste/EnableFocus/Suspend/Resume with key, click, motion, paste and focus callbacks probed after every step at which the screen is running. distinct_nontrivial = input cases + lifecycle sequences + draw states"
 	w.R.Assumptions = []string{"the JavaScript side is replaced by recording functions installed from Go (webfiles/tcell.js itself is not executed)", "default/reset colours and a wide rune in the last column are not fixed by the statement for this backend and are not compared", "Ctrl-letter mapping follows the backend's documented special case (Ctrl alone + letter => KeyCtrlX)"}
 	install()
 	if *hc.Replay != "" {
@@ -577,6 +698,7 @@ func main() {
 	draws()
 	inputs()
 	lifecycle()
+	modes()
 	for i := int64(0); i < w.R.States; i++ {
 		w.Distinct(uint64(*hc.Shard)<<40 | uint64(i))
 	}
